@@ -558,6 +558,11 @@ def check_no_empty_tokens(repo, rep):
 
 
 def run(repo, rep):
+    from sa.rules import c02 as _c02
+    rep.rule('R02h', 'see C02: the operator words of the default table are '
+             'those the language reference lists (every other word is an '
+             'ordinary keyword string)')
+    _c02.check_documented_operators(repo, rep)
     rep.rule('R16a', 'DECODE-PER-ESCAPE: the unicode-escape codec is '
              'applied to exactly one matched escape sequence at a time')
     rep.rule('R16b', 'ESCAPE-SET: the escape alternatives cover the '
